@@ -90,8 +90,16 @@ theorem shr_localLogout (a : Node) : a.Shr a.localLogout := by
   · exact ⟨rfl, List.Sublist.refl _, List.Sublist.refl _, Or.inr rfl⟩
   · exact Node.Shr.refl a
 
-theorem shr_clearLoc (a : Node) : a.Shr { a with loc := none } :=
+theorem shr_clearLoc (a : Node) : a.Shr a.clearLoc :=
   ⟨rfl, List.Sublist.refl _, List.Sublist.refl _, Or.inr rfl⟩
+
+theorem shr_endLocalOf (u : String) (a : Node) : a.Shr (a.endLocalOf u) := by
+  unfold Node.endLocalOf
+  split
+  · split
+    · exact shr_clearLoc a
+    · exact Node.Shr.refl a
+  · exact Node.Shr.refl a
 
 /-- network level -/
 structure Net.Shr (n m : Net) : Prop where
@@ -199,13 +207,7 @@ theorem shr_logoutUser (n : Net) (j : Nat) (u : String) : n.Shr (logoutUser n j 
   unfold logoutUser
   split
   · exact Net.Shr.refl n
-  · refine (shr_foldl _ (fun m cid => shr_forceLogout m j cid) _ n).trans (shr_upd _ j _ ?_)
-    intro a
-    split
-    · split
-      · exact shr_clearLoc a
-      · exact Node.Shr.refl a
-    · exact Node.Shr.refl a
+  · exact (shr_foldl _ (fun m cid => shr_forceLogout m j cid) _ n).trans (shr_upd _ j _ (shr_endLocalOf u))
 
 theorem shr_timeoutRemote (n : Net) (y : Nat) (s : RSession) : n.Shr (timeoutRemote n y s) := by
   unfold timeoutRemote
@@ -257,12 +259,39 @@ theorem rel_upd {R : Nat → Node → Node → Prop} (n : Net) (i : Nat) (f : No
     · subst hij; exact ⟨f a, by simp [h], hf a h⟩
     · exact ⟨a, by simp [hij, h], hR j a⟩⟩
 
-theorem rel_withTime {R : Nat → Node → Node → Prop} {n m : Net} (h : Net.Rel R n m) (k : Nat) :
-    Net.Rel R n { m with nextId := k } := ⟨h.len, h.node⟩
-
 theorem rel_map {R : Nat → Node → Node → Prop} (n : Net) (g : Node → Node) (t : Nat) (hg : ∀ j a, R j a (g a)) :
     Net.Rel R n { n with time := t, nodes := n.nodes.map g } :=
   ⟨by simp, fun j a h => ⟨g a, by simp [Net.node] at h ⊢; simp [h], hg j a⟩⟩
+
+theorem rel_bump {R : Nat → Node → Node → Prop} {n m : Net} (h : Net.Rel R n m) (k : Nat) :
+    Net.Rel R n (m.bump k) := ⟨h.len, h.node⟩
+
+@[simp] theorem node_bump (n : Net) (k j : Nat) : (n.bump k).node j = n.node j := rfl
+@[simp] theorem bump_time (n : Net) (k : Nat) : (n.bump k).time = n.time := rfl
+@[simp] theorem bump_nextId (n : Net) (k : Nat) : (n.bump k).nextId = k := rfl
+
+/-- a reflexive, transitive node relation -/
+structure Pre (R : Nat → Node → Node → Prop) : Prop where
+  refl : ∀ j a, R j a a
+  trans : ∀ j a b c, R j a b → R j b c → R j a c
+
+theorem Pre.rel_refl {R : Nat → Node → Node → Prop} (hR : Pre R) (n : Net) : Net.Rel R n n := Net.Rel.refl hR.refl n
+
+theorem Pre.rel_trans {R : Nat → Node → Node → Prop} (hR : Pre R) {n m k : Net} (h1 : Net.Rel R n m) (h2 : Net.Rel R m k) :
+    Net.Rel R n k := Net.Rel.trans hR.trans h1 h2
+
+/-- one more node edit on the right -/
+theorem Pre.rel_upd {R : Nat → Node → Node → Prop} (hR : Pre R) {n m : Net} (h : Net.Rel R n m) (i : Nat) (f : Node → Node)
+    (hf : ∀ a, R i a (f a)) : Net.Rel R n (m.upd i f) :=
+  hR.rel_trans h (_root_.Primaite.Session.rel_upd m i f hR.refl (fun a _ => hf a))
+
+theorem Pre.rel_shr {R : Nat → Node → Node → Prop} (hR : Pre R) (hS : ∀ j a b, Node.Shr a b → R j a b) {n m k : Net}
+    (h : Net.Rel R n m) (h2 : m.Shr k) : Net.Rel R n k := hR.rel_trans h (h2.rel.mono hS)
+
+theorem Pre.rel_tick {R : Nat → Node → Node → Prop} (hR : Pre R) (hS : ∀ j a b, Node.Shr a b → R j a b)
+    (hA : ∀ j a, R j a a.applyTimestep) (n : Net) : Net.Rel R n (tick n) := by
+  unfold tick
+  exact hR.rel_shr hS (rel_map n _ (n.time + 1) hA) (shr_foldl _ shr_preTimestepNode _ _)
 
 /-! ### what the power / service machinery never touches -/
 
